@@ -521,4 +521,23 @@ def unit_axis(repo: Repo) -> RuleRun:
 
 unit_axis.rule_id = "C16.UNIT-AXIS"
 
-RULES = [knot_dependence, end_pairing, interface, closest_param_search, stale_alias, none_tests, no_memo, bounds_respected, range_start, no_stale_lazy_cache, unit_axis]
+def deep_copy(repo: Repo) -> RuleRun:
+    """'a copy of a curve is a curve of its own': no function kept in a curve or its interpolator reads rebuildable state of the object it was created in. Same rule as C09.DEEP-COPY."""
+    from ..report import rebrand
+    from . import c09
+
+    return rebrand(c09.deep_copy(repo), PROP, "C16.DEEP-COPY")
+
+
+deep_copy.rule_id = "C16.DEEP-COPY"
+
+def queries_read_only(repo: Repo) -> RuleRun:
+    """'discretize, get_point, get_length and the closest-parameter query describe the same curve' - before and after any of them was called: queries do not write into the curve's own array."""
+    from ..alias import inplace_on_view_rule
+
+    return inplace_on_view_rule(repo, PROP, "C16.QUERIES-READ-ONLY", ("construct.curves", "construct.array", "items.edges"))
+
+
+queries_read_only.rule_id = "C16.QUERIES-READ-ONLY"
+
+RULES = [knot_dependence, end_pairing, interface, closest_param_search, stale_alias, none_tests, no_memo, bounds_respected, range_start, no_stale_lazy_cache, unit_axis, deep_copy, queries_read_only]
